@@ -82,6 +82,10 @@ pub fn all_targets() -> Vec<(&'static str, Drive)> {
         HashMap<String, u8>, HashMap<syn::Ident, String>, HashMap<syn::Path, syn::Expr>, BTreeMap<String, bool>, BTreeMap<syn::Ident, HashMap<String, u8>>,
         Flag, Ignored, PathList, SpannedValue<u8>, SpannedValue<syn::Path>, Override<u8>, Override<syn::Expr>, Override<Option<bool>>,
         WithOriginal<u8, syn::Meta>, Callable, IdentString, Option<Box<HashMap<String, Override<SpannedValue<i64>>>>>,
+        // wrappers around targets that take an empty list, a word, or anything at all
+        SpannedValue<PathList>, SpannedValue<HashMap<String, u8>>, SpannedValue<Ignored>, SpannedValue<Vec<syn::LitInt>>, SpannedValue<Flag>,
+        SpannedValue<Result<u8, syn::Meta>>, WithOriginal<PathList, syn::Meta>, Override<PathList>, Override<HashMap<String, u8>>, Option<Ignored>,
+        Box<BTreeMap<String, bool>>, darling_core::Result<PathList>, SpannedValue<Option<Override<Flag>>>, SpannedValue<()>, SpannedValue<syn::Meta>,
     )
 }
 
